@@ -354,7 +354,8 @@ pub fn cases(prop: &str, seed: u64, tier: &str) -> Vec<String> {
                 out.push("W".into());
                 if i % 3 == 0 {
                     // a write that fails half way (sink error after k calls) must not influence later writes
-                    out.push(format!("Z max=0 {}:F", 1 + r.below(4)));
+                    // (implementation-only sink operation: only the effect on the following write matters here)
+                    out.push(format!("ZI max=0 {}:F", 1 + r.below(4)));
                 }
                 out.push("W".into());
             }
